@@ -139,10 +139,11 @@ Definition hint_of_kid (m : objmap) (kid : obj) : N :=
   | _ => 1%N
   end.
 
-(* PageTreeIter::size_hint on the state (kids, stack, iter_limit): saturating fold, clamped *)
-Definition size_hint (m : objmap) (limit : nat) (kids : list obj) (stack : list (list obj)) : N :=
-  N.min (fold_left (fun acc k => sat_add acc (hint_of_kid m k)) (kids ++ concat stack) 0%N)
-        (N.of_nat limit).
+(* PageTreeIter::size_hint on the state (kids, stack, iter_limit): (lower, Some(upper)) with
+   lower = the saturating fold of the Count estimates clamped to iter_limit, upper = iter_limit (ab38d4c) *)
+Definition size_hint (m : objmap) (limit : nat) (kids : list obj) (stack : list (list obj)) : N * N :=
+  (N.min (fold_left (fun acc k => sat_add acc (hint_of_kid m k)) (kids ++ concat stack) 0%N) (N.of_nat limit),
+   N.of_nat limit).
 
 (* one call of next(): the yielded id (if any) and the state afterwards; same structure as PageTree.iter *)
 Fixpoint iter_next (limit : nat) (m : objmap) (kids : list obj) (stack : list (list obj))
@@ -182,7 +183,7 @@ Definition root_kids (d : doc) : list obj :=
   end.
 
 (* (size_hint before, first next(), size_hint after): what the "hint" group of the harness observes *)
-Definition hint_probe (d : doc) : N * option oid * N :=
+Definition hint_probe (d : doc) : (N * N) * option oid * (N * N) :=
   let m := d_objects d in
   let n := length m in
   let ks := root_kids d in
@@ -196,7 +197,7 @@ Definition get_pages_alloc (d : doc) : N :=
   let '(_, y, h1) := hint_probe d in
   match y with
   | None => 0%N
-  | Some _ => N.max 4 (sat_add h1 1)
+  | Some _ => N.max 4 (sat_add (fst h1) 1)
   end.
 
 (* ====================================================================================== *)
